@@ -43,7 +43,7 @@ Inductive sel_class :=
 | SelUnnamed.                    (* not a named type: ignored *)
 
 Record env := {
-  e_file_types : list (string * bool);                      (* type declarations of the interface's file: name, declared as a struct type *)
+  e_pkg_types : list (string * bool);                       (* type declarations of the package's files (the interface's file first): name, declared as a struct type *)
   e_sel : list ((string * string) * sel_class);             (* go/types view of pkg.Name *)
   e_structs : list ((string * string) * list field_decl)    (* (package, "" = own; type name) -> field declarations found by parser.ParseDir *)
 }.
@@ -120,9 +120,10 @@ Definition mem_str (x : string) (l : list string) : bool := existsb (String.eqb 
 Definition is_true_key (m : list (string * string)) (k : string) : bool :=
   match map_get m k with Some _ => true | None => false end.
 
-(* func isStructType(name, file): the first declaration of that name decides *)
+(* func (g *Generator) isPkgStructType(name, file): the declaration of that name, in the interface's
+   file or in any other file of the package, decides (package-level names are unique) *)
 Definition is_struct_type (E : env) (n : string) : bool :=
-  match assoc_b (e_file_types E) n with Some b => b | None => false end.
+  match assoc_b (e_pkg_types E) n with Some b => b | None => false end.
 
 (* func extractStructFields, flattened to fieldInfo entries *)
 Record field_info := { fi_name : string; fi_alias : string; fi_exported : bool; fi_ptr : bool }.
@@ -171,16 +172,21 @@ Definition handle_ident (E : env) (n name : string) (d : mdata) : cres mdata :=
   else if mem_str name (d_path_params d) then COk d
   else COk (with_query d (d_query_params d ++ [EParam name])).
 
-(* func (g *Generator) handleMapType *)
-Definition handle_map (name : string) (d : mdata) : mdata :=
-  if String.eqb (d_verb d) "GET" || String.eqb (d_verb d) "DELETE" then with_dict d (Some name) else d.
+(* func (g *Generator) handleMapType: a second query map of a GET/DELETE method is refused *)
+Definition handle_map (name : string) (d : mdata) : cres mdata :=
+  if String.eqb (d_verb d) "GET" || String.eqb (d_verb d) "DELETE" then
+    match d_dict d with
+    | Some _ => CFatal "ambiguous query map binding"
+    | None => COk (with_dict d (Some name))
+    end
+  else COk d.
 
 (* func (g *Generator) handleExpr *)
 Fixpoint handle_expr (E : env) (t : texpr) (name : string) (d : mdata) : cres mdata :=
   match t with
   | TSel pkg n => handle_selector E pkg n name d
   | TIdent n => handle_ident E n name d
-  | TMapT => COk (handle_map name d)
+  | TMapT => handle_map name d
   | TStar x => handle_expr E x name d
   | TOther => CFatal "unsupported param type"
   end.
@@ -204,7 +210,18 @@ Definition revers_map (sigma : oracle) (as_map : list (string * string)) : list 
 Definition real_path_params (revers : list (string * string)) (pps : list string) : list string :=
   map (fun n => match map_get revers n with Some r => r | None => n end) pps.
 
-(* cook.go:83-133 for one method *)
+(* cook.go: a POST/PUT/PATCH method without body parameter is refused *)
+Definition body_verb (verb : string) : bool :=
+  String.eqb verb "POST" || String.eqb verb "PUT" || String.eqb verb "PATCH".
+Definition check_body (d : mdata) : cres mdata :=
+  if body_verb (d_verb d) then
+    match d_body d with
+    | Some _ => COk d
+    | None => CFatal "a body verb needs a struct parameter as request body"
+    end
+  else COk d.
+
+(* cook.go:83-140 for one method *)
 Definition cook_method (sigma : oracle) (E : env) (m : method_decl) : cres mdata :=
   match md_doc m with
   | None => CSkip
@@ -217,7 +234,7 @@ Definition cook_method (sigma : oracle) (E : env) (m : method_decl) : cres mdata
           let d0 := {| d_verb := verb; d_path := path; d_alias := as_map;
                        d_path_params := real_path_params (revers_map sigma as_map) pps;
                        d_query_params := []; d_is_ptr := []; d_body := None; d_dict := None; d_ctx := None |} in
-          fold_left (handle_param E) (md_params m) (COk d0)
+          cbind (fold_left (handle_param E) (md_params m) (COk d0)) check_body
       end
   end.
 
@@ -227,8 +244,6 @@ Definition default_headers (verb : string) : list (string * string) :=
   else if String.eqb verb "POST" || String.eqb verb "PUT" || String.eqb verb "PATCH"
        then [("Accept", "application/json"); ("Content-Type", "application/json")]
   else [].
-Definition body_verb (verb : string) : bool :=
-  String.eqb verb "POST" || String.eqb verb "PUT" || String.eqb verb "PATCH".
 
 (* cook.go:68-76: every embedded interface with a doc comment contributes its headers= directive
    to the map of every verb *)
